@@ -11,6 +11,7 @@ model state (`env k`, k = number of awaits performed so far): the theorems hold 
 import EdzedModel.ErrorReg
 import EdzedModel.Gen.TranslatedErrReg
 import EdzedModel.Gen.TranslatedLifecycle
+import EdzedModel.Gen.TranslatedInitSb
 import EdzedProofs.ErrorReg
 
 namespace Edzed.ErrorRegTie
@@ -134,20 +135,37 @@ structure TS where
   started : List Nat := []         -- run_forever's local `started_blocks`
   startOk : Bool := false          -- run_forever's local `start_ok`
   simulated : Bool := false        -- `_simulate()` was entered
+  cancelAt : Nat → Bool := fun _ => false
+                                   -- the environment's choice per await of a coroutine that runs in a CALLER's task
+                                   -- (wait_init, shutdown, _check_started, run): true = the caller's task is cancelled
+                                   -- while it is suspended at its k-th await, which then raises CancelledError
 
 /-- an `await`: the environment runs (`env k` for the k-th await), the await is logged -/
 def TS.await (env : Nat → St → St) (a : Aw) (s : TS) : TS :=
   { s with st := env s.log.length s.st, log := s.log ++ [(a, s.handler)] }
 
+/-- the exception with which a cancelled await ends: a bare `task.cancel()` of the caller's task -/
+def callerCancelled : PyExc := .err (.cancelled 0)
+
+/-- an `await` in a caller's task as a primitive: the environment runs, then the await returns -- or, when the
+    environment cancelled the caller meanwhile (`cancelAt`), raises CancelledError -/
+def awaitM {ρ : Type} (env : Nat → St → St) (a : Aw) : M TS PyExc ρ Unit := fun s =>
+  (s.await env a, if s.cancelAt s.log.length then .raise callerCancelled else .next ())
+
 /-- `Circuit.abort(exc)` = the model's `St.abort`; the call is logged as a delivery -/
 def abortP (x : PyExc) : M TS PyExc ρ Unit := fun s =>
   ({ s with st := s.st.abort x.toErr, dels := s.dels ++ [x.toErr] }, .next ())
 
-/-- awaiting the simulation task: it ends with `raise self._error` (the model's `runForeverRaises`) -/
+/-- awaiting the simulation task: it ends with `raise self._error` (the model's `runForeverRaises`).  When the
+    CALLER is cancelled while it awaits the task directly (`await task`), asyncio forwards the cancellation to the
+    awaited task -- the model's `rawCancel` -- and the await raises CancelledError -/
 def awaitSim (env : Nat → St → St) (a : Aw) : M TS PyExc ρ Unit := fun s =>
-  match runForeverRaises (s.await env a).st with
-  | some e => (s.await env a, .raise (.err e))
-  | none => (s.await env a, .next ())
+  if s.cancelAt s.log.length then
+    ({ s.await env a with st := (step (s.await env a).st .rawCancel).1 }, .raise callerCancelled)
+  else
+    match runForeverRaises (s.await env a).st with
+    | some e => (s.await env a, .raise (.err e))
+    | none => (s.await env a, .next ())
 
 /-- a CALL of a translated function from another translated function: `return v` ends the call, not the caller -/
 def callFn {ρ ρ' : Type} (m : M TS PyExc ρ Unit) : M TS PyExc ρ' Unit := fun s =>
@@ -162,7 +180,7 @@ def callFn {ρ ρ' : Type} (m : M TS PyExc ρ Unit) : M TS PyExc ρ' Unit := fun
 @[reducible] def csPrims (env : Nat → St → St) : TrE.CheckStartedPrims TS PyExc where
   mkExc := mkExc
   simtask s := if s.st.phase == .notStarted then none else some ()
-  sleep0 := fun s => (s.await env .yield, .next ())
+  sleep0 := awaitM env .yield
 
 /-- `cur`: the caller is the simulation task itself -/
 @[reducible] def sdPrims (env : Nat → St → St) (cur : Bool) : TrE.ShutdownPrims TS PyExc where
@@ -181,7 +199,7 @@ def callFn {ρ ρ' : Type} (m : M TS PyExc ρ Unit) : M TS PyExc ρ' Unit := fun
     match s.initDone with
     | none => (s, .raise .attributeError)            -- evaluating `self._init_done` fails
     | some _ => ({ s with waiter := some true }, .next ())
-  waitFirst _ := fun s => (s.await env .waitInit, .next ())
+  waitFirst _ := awaitM env .waitInit       -- `asyncio.wait` does not cancel the tasks it waits for
   cancelWaiter _ := fun s => ({ s with waiter := some false }, .next ())
   simtaskDone s := s.st.phase == .done
   simtaskCancelled s := match s.st.error with | some e => e.isCancel | none => false
@@ -232,13 +250,14 @@ def taskDone (s : TS) : Tk → Bool
   createSupTasks cs := M.pure ((List.range cs.length).map .sup)
   -- after `asyncio.wait` the yield is the model's wake entry `runAbort`
   sleep0 := fun s =>
-    ((if s.waited then { s with st := s.st.addWake .runAbort } else s).await env .yield, .next ())
+    awaitM env .yield (if s.waited then { s with st := s.st.addWake .runAbort } else s)
   taskDone := taskDone
   taskResult t := fun s =>
     match t with
     | .sim => (match runForeverRaises s.st with | some e => (s, .raise (.err e)) | none => (s, .next ()))
     | .sup _ => (s, .next ())
-  waitFirst _ := fun s => ({ s.await env .wait with waited := true }, .next ())
+  waitFirst _ := fun s =>
+    ({ s.await env .wait with waited := true }, if s.cancelAt s.log.length then .raise callerCancelled else .next ())
   -- cancelling the simulation task directly is the model's `rawCancel`; a supporting task is outside the model
   cancelTask t := fun s =>
     ({ s with cancelled := s.cancelled ++ [t]
@@ -274,7 +293,8 @@ def thrownAt (s : St) : St × Option Err :=
   if s.mustCancel then ({ s with mustCancel := false }, some (.cancelled 0))
   else match s.armed with
     | some (.calc id) => (s, some (.exc id))
-    | some (.calcHandler id) => (s.abort (.wrapped id), some (.exc id))
+    | some (.calcHandler id f) =>
+      if (Fault.inHandler f).fatal then (s.abort (.wrapped id), some (.exc id)) else (s, some (.exc id))
     | none => (s, none)
 
 @[reducible] def erfPrims (sc : RfScript) : TrL.RunForeverPrims TS PyExc Nat where
@@ -314,7 +334,9 @@ def thrownAt (s : St) : St × Option Err :=
     | some id => (s, .raise (.err (.exc id)))
     | none => (s, .next ())
   initAsync := fun s => ({ s with st := sc.envInit s.st }, .next ())
-  initSync2 := M.pure ()
+  -- `_init_sblocks_sync_2`: a block whose initialisation step failed early is not initialised again and is
+  -- found uninitialised at the end
+  initSync2 := fun s => if s.st.earlyFail then (s, .raise (.err .notInit)) else (s, .next ())
   initDoneSet := fun s => ({ s with initDone := some true }, .next ())
   simulate := fun s =>
     match (thrownAt (sc.envSim s.st)).2 with
@@ -358,6 +380,7 @@ def orElseSup (re : Option PyExc) (x : Option Nat) : Option PyExc :=
 @[simp] theorem isCancel_exc (i : Nat) : (Err.exc i).isCancel = false := rfl
 @[simp] theorem isCancel_wrapped (i : Nat) : (Err.wrapped i).isCancel = false := rfl
 @[simp] theorem isCancel_reported (i : Nat) : (Err.reported i).isCancel = false := rfl
+@[simp] theorem isCancel_notInit : Err.notInit.isCancel = false := rfl
 
 /-- the except clause of run_forever IS the model's `caught` -/
 theorem caught_eq (s : St) (e : Err) :
@@ -374,7 +397,7 @@ theorem wakeStep_sim_try_eq (s : St) (hp : s.phase = .tryBlock) :
   cases hm : s.mustCancel
   · cases ha : s.armed with
     | none => simp
-    | some a => cases a <;> simp
+    | some a => cases a <;> simp <;> split <;> simp_all
   · simp
 
 /-- the model's `start` of a fresh task, in the three cases -/
@@ -387,9 +410,14 @@ theorem start_init_error (s0 : St) (id : Nat) (hp : s0.phase = .notStarted) (he 
       (({ s0 with phase := .tryBlock, runWaiting := s0.runMode } : St).caught (.exc id)).leaveTry := by
   simp [step, hp, he]
 
-theorem start_ok (s0 : St) (hp : s0.phase = .notStarted) (he : s0.error = none) :
+theorem start_ok (s0 : St) (hp : s0.phase = .notStarted) (he : s0.error = none) (hf : s0.earlyFail = false) :
     (step s0 (.start none)).1 = { s0 with phase := .tryBlock, runWaiting := s0.runMode } := by
-  simp [step, hp, he]
+  simp [step, hp, he, hf]
+
+theorem start_early_fail (s0 : St) (hp : s0.phase = .notStarted) (he : s0.error = none) (hf : s0.earlyFail = true) :
+    (step s0 (.start none)).1 =
+      (({ s0 with phase := .tryBlock, runWaiting := s0.runMode } : St).caught .notInit).leaveTry := by
+  simp [step, hp, he, hf]
 
 /-- the model's `wakeStep … sim` at the `sleep(0)` after the try block -/
 theorem wake_sleep0 (s : St) (hp : s.phase = .sleep0) :
@@ -424,7 +452,7 @@ def outcomeOf (o : Option Err) : Out PyExc Unit Unit :=
 /-- under the tie's hypotheses on the environments the model's account of run_forever ends in phase `done` -/
 theorem rfModel_done (sc : RfScript) (s0 : St) (hp : s0.phase = .notStarted) (he : s0.error = none)
     (hs : ∀ s, (sc.envSim s).phase = s.phase)
-    (ht : sc.initErr = none → (thrownAt (sc.envSim (step s0 (.start none)).1)).2.isSome = true)
+    (ht : sc.initErr = none → s0.earlyFail = false → (thrownAt (sc.envSim (step s0 (.start none)).1)).2.isSome = true)
     (hy : ∀ s, (sc.envYield s).phase = s.phase) (hz : ∀ s, (sc.envStop s).phase = s.phase) :
     (rfModel sc s0).phase = .done := by
   unfold rfModel
@@ -434,14 +462,17 @@ theorem rfModel_done (sc : RfScript) (s0 : St) (hp : s0.phase = .notStarted) (he
     cases hie : sc.initErr with
     | some id => rw [start_init_error s0 id hp he]; simp
     | none =>
-      have ht' := ht hie
-      rw [start_ok s0 hp he] at ht' ⊢
-      have hph : (sc.envSim { s0 with phase := .tryBlock, runWaiting := s0.runMode }).phase = .tryBlock := by rw [hs]
-      simp only [show (({ s0 with phase := .tryBlock, runWaiting := s0.runMode } : St).phase == Phase.tryBlock) = true from rfl,
-        if_true, wakeStep_sim_try_eq _ hph]
-      cases hT : (thrownAt (sc.envSim { s0 with phase := .tryBlock, runWaiting := s0.runMode })).2 with
-      | none => rw [hT] at ht'; simp at ht'
-      | some e => simp
+      cases hf : s0.earlyFail with
+      | true => rw [start_early_fail s0 hp he hf]; simp
+      | false =>
+        have ht' := ht hie hf
+        rw [start_ok s0 hp he hf] at ht' ⊢
+        have hph : (sc.envSim { s0 with phase := .tryBlock, runWaiting := s0.runMode }).phase = .tryBlock := by rw [hs]
+        simp only [show (({ s0 with phase := .tryBlock, runWaiting := s0.runMode } : St).phase == Phase.tryBlock) = true from rfl,
+          if_true, wakeStep_sim_try_eq _ hph]
+        cases hT : (thrownAt (sc.envSim { s0 with phase := .tryBlock, runWaiting := s0.runMode })).2 with
+        | none => rw [hT] at ht'; simp at ht'
+        | some e => simp
   simp only []
   generalize (if ((step s0 (.start sc.initErr)).1.phase == Phase.tryBlock) = true
       then (wakeStep (sc.envSim (step s0 (.start sc.initErr)).1) .sim).1 else (step s0 (.start sc.initErr)).1) = S2 at h2 ⊢
@@ -452,5 +483,93 @@ theorem rfModel_done (sc : RfScript) (s0 : St) (hp : s0.phase = .notStarted) (he
   · simp [hsl] at h3
     have : (sc.envStop W).phase = .cleanup := by rw [hz]; exact h3
     simp [h3, finish_phase _ this]
+
+/-! ### `SBlock.event` and `init_sblock` (the programs of Gen/TranslatedDispatch.lean and Gen/TranslatedInitSb.lean,
+    primitives = what the error register sees of one block) -/
+
+/-- the exceptions of one event delivery -/
+inductive EvExc where
+  | raised (f : Family) (deep : Bool)   -- what the handler call ended with: family, traceback deeper than the call
+  | simErr            -- the EdzedCircuitError made by `SBlock.event` for abort() (`__cause__` = the handler's exception)
+  | recursion         -- EdzedCircuitError("Forbidden recursive event() call")
+  | initFailed        -- the exception raised by a synchronous initialisation routine
+  | other             -- ValueError / TypeError for a malformed event type
+  deriving DecidableEq, Repr
+
+/-- one SBlock as the error register sees it -/
+structure EvSt where
+  st : St := {}
+  dels : List Err := []        -- the errors handed to `Circuit.abort`
+  active : Bool := false       -- `_event_active`
+  marker : Int := 2            -- `init_steps_completed`
+  initCalls : Nat := 0         -- calls of `init_regular()`
+  initialized : Bool := true
+
+/-- the event type: one the block has a handler for, or not -/
+inductive EvType where
+  | known | unknown
+  deriving DecidableEq, Repr
+
+def faultEtype : Fault → EvType
+  | .unknownType => .unknown
+  | _ => .known
+
+/-- the primitives of `init_sblock` for a block without persistence and without `init_from_value` whose
+    `init_regular()` raises (`initFails`) or initialises the block -/
+@[reducible] def isPrims (initFails : Bool) : TrI.InitPrims EvSt EvExc Unit where
+  steps s _ := s.marker
+  setSteps _ k := fun s => ({ s with marker := k }, .next ())
+  hasPersistence _ := false
+  persistent _ _ := false
+  initFromPersistentData _ := M.pure ()
+  isInitialized s _ := s.initialized
+  initRegular _ := fun s =>
+    if initFails then ({ s with initCalls := s.initCalls + 1 }, .raise .initFailed)
+    else ({ s with initCalls := s.initCalls + 1, initialized := true }, .next ())
+  hasInitFromValue _ := false
+  initdefGiven _ := false
+  initFromValue _ := M.pure ()
+  excIs _ c := c == "Exception"
+  mkExc _ _ := .other
+  sblocks := [()]
+  pblocks := []
+  initSblock _ _ := M.pure ()
+  hasStorage _ := false
+  savePersistentState _ := M.pure ()
+  queueEmpty _ := true
+  queueGet := M.pure ()
+
+/-- the primitives of `SBlock.event` for one delivery that ends with the fault `flt` (exception id `id`);
+    `self.circuit.init_sblock(self, full=True)` is the TRANSLATED `init_sblock` -/
+@[reducible] def evPrims (flt : Fault) (id : Nat) (initFails : Bool) :
+    TrD.EventPrims EvSt EvExc EvType Unit Unit Unit Unit Bool where
+  isStr _ := true
+  etypeTruthy _ := true
+  isEventType _ := false
+  isCond _ := false
+  etrue _ := none
+  efalse _ := none
+  dataValue _ := ()
+  valTruthy _ := false
+  mkExc cls marker := if cls == "EdzedCircuitError" then (if marker == "recursion" then .recursion else .simErr) else .other
+  excIs e c :=
+    match e with
+    | .raised f _ => c == "Exception" || (c == "EdzedUnknownEvent" && f == .unknownEvent)
+    | _ => c == "Exception"
+  tbDeep e := match e with | .raised _ d => d | _ => true
+  getActive s := s.active
+  setActive b := fun s => ({ s with active := b }, .next ())
+  -- `abort(sim_err)`: the model's `St.abort` with the wrapped error
+  abort x := fun s =>
+    let e : Err := match x with | .simErr => .wrapped id | _ => .exc 0
+    ({ s with st := s.st.abort e, dels := s.dels ++ [e] }, .next ())
+  initSteps s := s.marker
+  enableEnter := fun s => ({ s with active := false }, .next s.active)     -- `_enable_event.__enter__`
+  enableExit saved := fun s => ({ s with active := saved }, .next ())
+  initSblockFull := TrI.init_sblock (isPrims initFails) () true
+  lookup t := match t with | .known => some () | .unknown => none
+  callHandler _ _ := M.raise (.raised flt.seen.1 flt.seen.2)
+  callDefault _ _ := M.raise (.raised .unknownEvent true)      -- the default `_event()`: EdzedUnknownEvent
+  noneVal := ()
 
 end Edzed.ErrorRegTie
